@@ -9,9 +9,10 @@ CONFIGS = ['default']
 CONFIGS_THOROUGH = ['default', 'full']
 TECHNIQUE = ('effect analysis (barrier oracles read no scaling state), decision table of the primal-dual scaling fallback, path rule on the '
              'scaling update order, abstract interpretation over rational functions with opaque transcendental atoms (Euler identities of the '
-             'barrier derivatives)')
+             'barrier derivatives), symbolic differentiation of the dual barriers with log / powf as differentiable atoms')
 EXPLANATION = (
-    "That the derivative formulas are the derivatives of the stated barriers (which would need symbolic differentiation), the "
+    "That the derivative formulas of the generalised power cone and of the primal barriers (defined through Newton / Wright-omega roots) "
+    "are the derivatives of the stated barriers, the "
     "third-order correction, conjugacy proper (grad f*(s) solves grad f(-g) = -s; only the Newton start point is compared with its "
     "sibling) and everything about the generalised power cone's formulas (element-wise loops) are NOT decided. Decided on the MIR of the current tree: (R1) for the "
     "exponential, power and generalised power cones the membership tests, barrier functions and the primal gradient "
@@ -30,7 +31,9 @@ EXPLANATION = (
     "the cone (the domain of their logarithms) and a positive residual; (R8) the Newton start point of the 3-d power cone equals "
     "the generalised power cone's start point specialised to exponents (alpha, 1-alpha) as a rational function with identified "
     "radicands (finding F7, fixed: psi was hard-wired to its alpha = 1/2 value); (R9) the shared one-sided Newton iteration stops on "
-    "a relative step; (R10) degree() of every cone type is its barrier parameter (3, 3, dim1+1, 1, dim, n, 0).")
+    "a relative step; (R10) degree() of every cone type is its barrier parameter (3, 3, dim1+1, 1, dim, n, 0)."
+    " (R11) symbolic differentiation with log / powf as differentiable atoms: for the exponential and power cone d barrier_dual / d z_i = grad_i and d grad_i / d z_j = H_ij exactly (18 rational-function identities)."
+    " R6 also: a vector that unit_initialization copies into the other one is final when copied.")
 ASSUMPTIONS = ['rustc MIR construction and trait resolution are correct',
                'R4: identities over the reals; log(a b) = log a + log b and omega + log omega = x for omega = wright_omega(x)']
 
@@ -661,6 +664,148 @@ def genpow_primal_gradient(rep, F, E, tag):
     R.guard(body)
 
 
+# ---------------------------------------------------------------------------
+# symbolic differentiation: the stored gradient is the derivative of the barrier the solver evaluates, the stored
+# Hessian is the Jacobian of that gradient
+# ---------------------------------------------------------------------------
+from engine.linform import P_inv
+
+
+def _diff_atoms(prefix, holder):
+    """coordinates prefix0..2, alpha, and log / powf calls as *semantic* atoms: identified by the polynomials of their arguments,
+    which are recorded in holder['defs'] so that the atom can be differentiated"""
+    def atoms(k, s_):
+        m = _re.fullmatch(r'arg2\[(\d)_usize\]', k)
+        if m:
+            return ('S', P_atom('%s%s' % (prefix, m.group(1))))
+        if k == 'self.α':
+            return ('S', P_atom('alpha'))
+        if s_[0] == 'call':
+            nm = last_seg(s_[1].split('#')[0])
+            if nm in ('logsafe', 'ln', 'powf'):
+                I_ = holder['I']
+                vals = [I_.ev({}, a_) for a_ in s_[2]]
+                if all(v is not None and v[0] == 'S' for v in vals):
+                    kind = 'pow' if nm == 'powf' else 'log'
+                    atom = (kind,) + tuple(P_key(v[1]) for v in vals)
+                    holder['defs'][atom] = (kind, [v[1] for v in vals])
+                    return ('S', P_atom(atom))
+                return None
+        return None
+    return atoms
+
+
+class _NoDerivative(Exception):
+    pass
+
+
+def _P_scale(p, c):
+    return {m: v * c for m, v in p.items() if v * c != 0}
+
+
+def _inv(u, reg):
+    r = P_inv(u)
+    if len(u) != 1:
+        reg[('recip', P_key(u))] = u
+    return r
+
+
+def P_diff(poly, var, defs, reg, depth=0):
+    """d poly / d var for a polynomial over coordinate atoms, recip atoms (reg), log / pow atoms (defs)"""
+    if depth > 8:
+        raise _NoDerivative('nesting too deep')
+
+    def d_atom(a):
+        if isinstance(a, str):
+            if a == var:
+                return P_const(1)
+            if _re.fullmatch(r'[a-z]\d', a) or a == 'alpha':
+                return {}
+            raise _NoDerivative('opaque atom %r' % (a,))
+        if a[0] == 'recip' and a in reg:
+            du = P_diff(reg[a], var, defs, reg, depth + 1)
+            return _P_scale(P_mul(du, P_mul(P_atom(a), P_atom(a))), -1)
+        if a in defs:
+            kind, args = defs[a]
+            if kind == 'log':
+                du = P_diff(args[0], var, defs, reg, depth + 1)
+                return P_mul(du, _inv(args[0], reg)) if du else {}
+            if kind == 'pow':
+                if P_diff(args[1], var, defs, reg, depth + 1):
+                    raise _NoDerivative('exponent depends on the variable')
+                db = P_diff(args[0], var, defs, reg, depth + 1)
+                return P_mul(P_mul(args[1], P_atom(a)), P_mul(db, _inv(args[0], reg))) if db else {}
+        raise _NoDerivative('opaque atom %r' % (a,))
+    total = {}
+    for m, c in poly.items():
+        for i, (a, e) in enumerate(m):
+            da = d_atom(a)
+            if not da:
+                continue
+            rest = {tuple(x for j, x in enumerate(m) if j != i): c * e}
+            if e != 1:
+                rest = P_mul(rest, P_atom(a, e - 1))
+            total = P_add(total, P_mul(rest, da))
+    return total
+
+
+def barrier_derivatives(rep, F, E, tag):
+    """The 3-d cones keep three separately written artefacts of one function: the dual barrier f*(z) the centrality line search evaluates,
+    its gradient and its Hessian (update_dual_grad_H).  With log and powf as differentiable atoms these are exact rational-function
+    identities: grad_i = d f*/d z_i and H_ij = d grad_i / d z_j.  (The Euler identities of R4 cannot see a swap of the two log weights
+    of the power cone: both give <grad, z> = -3.)"""
+    R = rep.rule('C14.R11', 'dual barrier, gradient and Hessian of the exponential and power cones are derivatives of one another (symbolic differentiation, exact)')
+
+    def body():
+        n = 0
+        for K in ('ExponentialCone', 'PowerCone'):
+            fb = F.one(name='barrier_dual', adt=K)
+            fg = F.one(name='update_dual_grad_H', adt=K)
+            reg, holder = {}, {'defs': {}}
+            Ib = LFSplit(F, E, fb, _diff_atoms('z', holder), reg)
+            holder['I'] = Ib
+            lb = [(val, ret, st) for val, ret, st in Ib.run({}, local_stores=True) if ret[0] != 'diverge']
+            if not R.check(len(lb) == 1, 'barrier-paths|%s%s' % (K, tag), '%s::barrier_dual has %d paths, expected straight-line code' % (K, len(lb)), fb.loc()):
+                continue
+            bval = Ib.ev(lb[0][2], fb.sym_local(0))
+            if not R.check(bval is not None and bval[0] == 'S', 'barrier-shape|%s%s' % (K, tag), '%s::barrier_dual could not be evaluated symbolically (%s)' % (K, canon(fb.sym_local(0))[:120]), fb.loc()):
+                continue
+            Ig = LFSplit(F, E, fg, _diff_atoms('z', holder), reg)
+            holder['I'] = Ig
+            lg = Ig.run({})
+            if not R.check(len(lg) == 1, 'grad-paths|%s%s' % (K, tag), '%s::update_dual_grad_H has %d paths' % (K, len(lg)), fg.loc()):
+                continue
+            st = lg[0][2]
+            g = [st.get('self.grad[%d_usize]' % i) for i in range(3)]
+            H = {}
+            for k, v in st.items():
+                m = _re.fullmatch(r'index_mut\(self\.H_dual, tuple\((\d)_usize, (\d)_usize\)\)', k)
+                if m:
+                    H[(int(m.group(1)), int(m.group(2)))] = v
+            ok = all(x is not None and x[0] == 'S' for x in g) and len(H) == 6 and all(x is not None and x[0] == 'S' for x in H.values())
+            if not R.check(ok, 'grad-shape|%s%s' % (K, tag), 'gradient / Hessian of %s not evaluated' % K, fg.loc()):
+                continue
+            try:
+                for i in range(3):
+                    d = P_diff(bval[1], 'z%d' % i, holder['defs'], reg)
+                    diff = to_ratf(d, reg) + to_ratf(g[i][1], reg) * RatF(P_const(-1))
+                    n += 1
+                    R.check(diff.is_zero(), 'gradient-of-barrier|%s|%d%s' % (K, i, tag),
+                            '%s: d barrier_dual / d z%d - grad[%d] = %s, not identically zero: the barrier the line search evaluates is not the function whose '
+                            'gradient and Hessian drive the scaling' % (K, i, i, P_fmt(diff.n)[:200]), fb.loc())
+                    for j in range(i, 3):
+                        dj = P_diff(g[i][1], 'z%d' % j, holder['defs'], reg)
+                        diff = to_ratf(dj, reg) + to_ratf(H[(i, j)][1], reg) * RatF(P_const(-1))
+                        n += 1
+                        R.check(diff.is_zero(), 'hessian-of-gradient|%s|%d%d%s' % (K, i, j, tag),
+                                '%s: d grad[%d] / d z%d - H[(%d,%d)] = %s, not identically zero' % (K, i, j, i, j, P_fmt(diff.n)[:200]), fg.loc())
+            except _NoDerivative as e:
+                R.bad('differentiable|%s%s' % (K, tag), '%s: cannot differentiate (%s)' % (K, e), fb.loc())
+        R.check(n >= 18, 'count' + tag, 'only %d derivative identities decided' % n)
+
+    R.guard(body)
+
+
 def run(ctx, rep, tier):
     for cfg in (CONFIGS_THOROUGH if tier == 'thorough' else CONFIGS):
         F = ctx.facts(cfg)
@@ -676,6 +821,7 @@ def run(ctx, rep, tier):
         newton_start_siblings(rep, F, E, tag)
         newton_relative_stop(rep, F, tag)
         barrier_parameters(rep, F, tag)
+        barrier_derivatives(rep, F, E, tag)
         R6 = rep.rule('C14.R6', 'unit initialisation overwrites both vectors of every cone wholly (the documented start point is reached on every solve, not only the first)')
         from . import c05
         R6.guard(lambda: c05.unit_init_must_write(R6, F, tag))
